@@ -246,7 +246,7 @@ fn extract(tokens: &str) -> Result<Extracted, String> {
 }
 
 pub fn run(report: &mut Report, replay: Option<&Value>) {
-    report.rule = "exhaustive: all 62 type expressions of list depth 0-4 (every placement of `!`) x named kinds {Int, Float, String, Boolean, ID, custom scalar, enum, object, interface, union; input object} x positions {response field, field of an object whose interface declares it all-nullable, variable, input-object field, @oneOf member} x schema formats {SDL, introspection JSON, SDL declaring the built-in scalars}. Oracle: an independently written mapping (`!` removes one Option, a list becomes Vec, per level; @oneOf variants carry the value without the outer Option); the field's syn::Type, whitespace-normalised, must equal it (composite response types: the innermost, path-derived name is a wildcard that must be defined in the module); the module's aliases must be Boolean = bool, Float = f64, Int = i64, ID = String. Non-trivial: list depth >= 2; distinct by (kind, expression, position, format).".into();
+    report.rule = "exhaustive: all 62 type expressions of list depth 0-4 (every placement of `!`) x named kinds {Int, Float, String, Boolean, ID, custom scalar, enum, object, interface, union; input object} x positions {response field, field of an object whose interface declares it all-nullable, variable, input-object field, @oneOf member} x schema formats {SDL, introspection JSON, SDL declaring the built-in scalars}. Oracle: an independently written mapping (`!` removes one Option, a list becomes Vec, per level; @oneOf variants carry the value without the outer Option); the field's syn::Type, whitespace-normalised, must equal it (composite response types: the innermost, path-derived name is a wildcard that must be defined in the module); the leaf is compared after resolving the module's aliases (Int / i64, Float / f64, Boolean / bool, ID / String); an alias for a built-in scalar, where defined, must be that primitive. Non-trivial: list depth >= 2; distinct by (kind, expression, position, format).".into();
     report.assumptions = vec!["syn parses the emitted tokens faithfully".into(), "the JSON rendering carries `isOneOf` (the answer to the one-of introspection query)".into()];
     let _ = replay;
     let mut exprs: Vec<Vec<bool>> = Vec::new();
@@ -294,10 +294,11 @@ pub fn run(report: &mut Report, replay: Option<&Value>) {
                 continue;
             }
         };
-        // aliases
+        // aliases: where the module defines one for a built-in scalar, it is the right primitive
+        // (a generator that spells `i64` directly and defines no alias is just as good)
         for (a, want) in [("Boolean", "bool"), ("Float", "f64"), ("Int", "i64"), ("ID", "String")] {
             report.evaluations += 1;
-            if ex.aliases.get(a).map(|s| s.as_str()) != Some(want) {
+            if ex.aliases.get(a).map(|s| s.as_str()).unwrap_or(want) != want {
                 report.violation(&format!("alias-{}", a), &format!("built-in scalar alias {} is {:?}, expected {}", a, ex.aliases.get(a), want), json!({"engine": "e2", "kind": format!("{:?}", kind), "format": fmt}));
             }
         }
@@ -308,14 +309,39 @@ pub fn run(report: &mut Report, replay: Option<&Value>) {
                 report.nontrivial.insert(fnv_str(&[&format!("{:?}", kind), &format!("{:?}", exprs[i]), pos, fmt]));
             }
             let want = expected_type(&t, if wildcard { "@" } else { base_name }, drop_outer);
+            // the leaf, with the module's aliases resolved: `Int` (alias of i64) and `i64` are the same type
+            let resolve = |leaf: &str| -> String {
+                let mut cur = leaf.to_string();
+                for _ in 0..4 {
+                    match ex.aliases.get(&cur) {
+                        Some(next) if next != &cur => cur = next.clone(),
+                        _ => break,
+                    }
+                }
+                cur
+            };
+            let leaf_ok = |leaf: &str| -> bool {
+                let r = resolve(leaf);
+                let last = r.rsplit("::").next().unwrap_or("").to_string();
+                match kind {
+                    Kind::Int => r == "i64",
+                    Kind::Float => r == "f64",
+                    Kind::Str | Kind::Id => r == "String",
+                    Kind::Boolean => r == "bool",
+                    // custom scalars resolve to the user's type of that name; enums / inputs are defined in the module
+                    Kind::Custom => last == *base_name && (r.contains("::") || !ex.defined.contains(&r) || ex.aliases.contains_key(leaf)),
+                    _ => r == *base_name && ex.defined.contains(&r),
+                }
+            };
             let ok = match got {
                 None => false,
                 Some(g) => {
+                    let (shape, inner) = wildcard_inner(g);
                     if wildcard {
-                        let (shape, inner) = wildcard_inner(g);
                         shape == want && ex.defined.contains(&inner)
                     } else {
-                        g == &want
+                        let (want_shape, _) = wildcard_inner(&want);
+                        shape == want_shape && leaf_ok(&inner)
                     }
                 }
             };
